@@ -162,7 +162,16 @@ def corpus_part(run):
                               '%s: request %r raised %r' % (name, req, e), {'kind': 'corpus', 'name': name, 'req': req})
                 continue
             exp = None if want is None else [vals[k] for k in want]
-            if got != exp:
+
+            def same(g, e):
+                # a foreign compressed message may carry a string in fewer octets than its element has; re-encoded, it
+                # reads back padded to the field width (C03 says so) - nothing else may differ
+                if isinstance(g, bytes) and isinstance(e, bytes):
+                    return g == e or (len(e) <= len(g) and e.ljust(len(g)) == g)
+                return type(g) == type(e) and g == e
+            ok = (got is None) == (exp is None) and (got is None or (
+                len(got) == len(exp) and all(len(a) == len(b) and all(same(x, y) for x, y in zip(a, b)) for a, b in zip(got, exp))))
+            if not ok:
                 run.violation(('corpus', 'subset', 'differs', 'refuse' if want is None else 'valid'), '%s: request %r gives a wrong result' % (name, req),
                               {'kind': 'corpus', 'name': name, 'req': req})
             else:
